@@ -31,6 +31,19 @@ type PropMeta struct {
 	Packages   []string `json:"packages"`
 	Bounded    []BoundedCheck `json:"bounded"`
 	StoreSites []StoreSiteRule `json:"storesites"`
+	CloserPairs []CloserPairRule `json:"closerpairs"`
+}
+
+// CloserPairRule is a structural check of the "open a pair, defer its closer" idiom: every call of the opener
+// (a function of internal/hooks that returns the pair's closer) inside the listed packages must either be followed, in
+// the same basic block and with no call in between, by a defer of exactly the returned closer (held in a local that is
+// written once and used for nothing else), or store the closer into one of the listed struct fields (pairs managed
+// through a field are the business of contracts or are listed as not covered). Any other use is reported.
+type CloserPairRule struct {
+	Opener string   `json:"opener"`        // e.g. OnRead
+	Pkgs   []string `json:"pkgs"`          // package directories scanned
+	Fields []string `json:"field_managed"` // "pkgdir:Type.field" sites accepted as field-managed
+	MinSites int    `json:"min_sites"`     // vacuity guard: at least this many opener calls must be found
 }
 
 // StoreSiteRule is a mechanical side condition of an object-invariant argument: the named field of the named struct
@@ -224,6 +237,9 @@ func runCheck(o *options, overlay map[string][]byte) (*checkResult, error) {
 	if o.only == "" {
 		for _, r := range meta.StoreSites {
 			res.bounded = append(res.bounded, w.checkStoreSites(o, r)...)
+		}
+		for _, r := range meta.CloserPairs {
+			res.bounded = append(res.bounded, w.checkCloserPairs(o, r))
 		}
 		for _, b := range meta.Bounded {
 			res.bounded = append(res.bounded, runBounded(o, b, overlay))
@@ -958,4 +974,135 @@ func (w *World) checkStoreSites(o *options, r StoreSiteRule) []*boundedResult {
 		}
 	}
 	return []*boundedResult{out}
+}
+
+// checkCloserPairs: see CloserPairRule (a structural check on the real code; reported like a bounded result).
+func (w *World) checkCloserPairs(o *options, r CloserPairRule) *boundedResult {
+	out := &boundedResult{BoundedCheck: BoundedCheck{Name: "closerpairs." + r.Opener, Pkg: strings.Join(r.Pkgs, ","),
+		Bound: fmt.Sprintf("every call of hooks.%s in %v: the returned closer is deferred at once in the same block (local written once, used only by that defer) or stored into one of %v", r.Opener, r.Pkgs, r.Fields)}, OK: true}
+	fail := func(format string, args ...any) {
+		out.OK = false
+		out.Output += fmt.Sprintf(format, args...) + "\n"
+	}
+	sites := 0
+	for _, dir := range r.Pkgs {
+		sp := w.ssaPkg(modulePath + "/" + dir)
+		if sp == nil {
+			fail("package %s not loaded", dir)
+			continue
+		}
+		for _, f := range allFunctions(sp) {
+			for _, b := range f.Blocks {
+				for idx, in := range b.Instrs {
+					out.Evaluations++
+					call, ok := in.(*ssa.Call)
+					if !ok {
+						continue
+					}
+					callee := call.Call.StaticCallee()
+					if callee == nil || callee.Pkg == nil || callee.Pkg.Pkg.Path() != modulePath+"/internal/hooks" || callee.Name() != r.Opener {
+						continue
+					}
+					sites++
+					where := fmt.Sprintf("%s at %s", funcKey(f), relPos(w.Fset.Position(call.Pos())))
+					var refl []ssa.Instruction
+					if rr := call.Referrers(); rr != nil {
+						for _, u := range *rr {
+							if _, dbg := u.(*ssa.DebugRef); !dbg {
+								refl = append(refl, u)
+							}
+						}
+					}
+					refs := &refl
+					if len(*refs) != 1 {
+						fail("%s: the closer returned by hooks.%s is used %d times directly (expected one store)", where, r.Opener, len(*refs))
+						continue
+					}
+					st, ok := (*refs)[0].(*ssa.Store)
+					if !ok || st.Val != ssa.Value(call) {
+						fail("%s: the closer returned by hooks.%s is not stored into a local or field", where, r.Opener)
+						continue
+					}
+					switch addr := st.Addr.(type) {
+					case *ssa.FieldAddr:
+						pt, _ := addr.X.Type().Underlying().(*types.Pointer)
+						var key string
+						if pt != nil {
+							if n, ok := pt.Elem().(*types.Named); ok {
+								key = dir + ":" + n.Obj().Name() + "." + n.Underlying().(*types.Struct).Field(addr.Field).Name()
+							}
+						}
+						okf := false
+						for _, a := range r.Fields {
+							if a == key {
+								okf = true
+							}
+						}
+						if !okf {
+							fail("%s: the closer is stored into field %s, which is not listed as field-managed", where, key)
+						}
+					case *ssa.Alloc:
+						// the local: written once (this store), read only to be deferred, exactly one defer, in this block, no call in between
+						defers, stores := 0, 0
+						bad := false
+						var theDefer *ssa.Defer
+						for _, u := range *addr.Referrers() {
+							switch u := u.(type) {
+							case *ssa.Store:
+								if u.Addr == ssa.Value(addr) {
+									stores++
+								} else {
+									bad = true
+								}
+							case *ssa.UnOp:
+								for _, uu := range *u.Referrers() {
+									if _, dbg := uu.(*ssa.DebugRef); dbg {
+										continue
+									}
+									if d, ok := uu.(*ssa.Defer); ok && d.Call.Value == ssa.Value(u) && len(d.Call.Args) == 0 {
+										defers++
+										theDefer = d
+									} else {
+										bad = true
+									}
+								}
+							case *ssa.DebugRef:
+							default:
+								bad = true
+							}
+						}
+						if stores != 1 || defers != 1 || bad {
+							fail("%s: the local holding the closer is written %d times, deferred %d times, other uses: %v (expected 1, 1, false)", where, stores, defers, bad)
+							continue
+						}
+						if theDefer.Block() != b {
+							fail("%s: the closer is deferred in another basic block (a path from the opener may skip the defer)", where)
+							continue
+						}
+						seen := false
+						for _, mid := range b.Instrs[idx+1:] {
+							if mid == ssa.Instruction(theDefer) {
+								seen = true
+								break
+							}
+							switch mid.(type) {
+							case *ssa.Call, *ssa.Go, *ssa.Defer, *ssa.Panic, *ssa.Send, *ssa.Select:
+								fail("%s: %T between the opener and the defer of its closer", where, mid)
+							}
+						}
+						if !seen {
+							fail("%s: the defer of the closer precedes the opener", where)
+						}
+					default:
+						fail("%s: the closer is stored through %T", where, st.Addr)
+					}
+				}
+			}
+		}
+	}
+	if sites < r.MinSites {
+		fail("only %d call sites of hooks.%s found, expected at least %d (vacuity guard)", sites, r.Opener, r.MinSites)
+	}
+	out.Output = fmt.Sprintf("%d call sites of hooks.%s\n", sites, r.Opener) + out.Output
+	return out
 }
